@@ -8,3 +8,148 @@ pub proof fn format_covers_every_string(b: Seq<u8>)
         str_encodable(b),
 {
 }
+
+// serves: C05 C18
+/// folding the payload bytes of v back in, starting from the bits above them, yields v
+pub proof fn lemma_be_fold(v: u64, k: int, i: int, acc: u64)
+    requires
+        0 <= i <= k <= 8,
+        acc == (if 8 * (k - i) >= 64 { 0u64 } else { v >> ((8 * (k - i)) as u64) }),
+    ensures
+        be_value(acc, be_bytes(v, k).subrange(i, k)) == v,
+    decreases k - i,
+{
+    let p = be_bytes(v, k).subrange(i, k);
+    if i == k {
+        assert(v >> 0u64 == v) by (bit_vector);
+    } else {
+        let s = (8 * (k - 1 - i)) as u64;
+        let b = p[0];
+        assert(b == (v >> s) as u8);
+        let acc2 = (acc << 8) | (b as u64);
+        assert(p.subrange(1, p.len() as int) == be_bytes(v, k).subrange(i + 1, k));
+        if s == 56 {
+            assert(((0u64 << 8) | (((v >> 56u64) as u8) as u64)) == v >> 56u64) by (bit_vector);
+        } else {
+            let s8 = (s + 8) as u64;
+            assert(s <= 48 && s8 == s + 8 ==> (((v >> s8) << 8) | (((v >> s) as u8) as u64)) == v >> s) by (bit_vector);
+        }
+        assert(acc2 == v >> s);
+        lemma_be_fold(v, k, i + 1, acc2);
+    }
+}
+
+// serves: C05 C18
+/// the head byte of enc_uint(v) carries the width class and the bits above the payload
+pub proof fn lemma_uint_head(v: u64)
+    ensures
+        ({
+            let k = uint_class(v);
+            let h = head_byte(uint_type(k), v, k);
+            &&& 0 <= k <= 8
+            &&& 0x30 <= h <= 0xBF
+            &&& (h as int - 0x30) / 0x10 == k
+            &&& (h % 16) as u64 == (if k >= 8 { 0u64 } else { v >> ((8 * k) as u64) })
+        }),
+{
+    let k = uint_class(v);
+    let t = uint_type(k);
+    assert(t == 0x30 + 0x10 * k);
+    if k < 8 {
+        let s = (8 * k) as u64;
+        let x = v >> s;
+        assert(v < 0x10 ==> (v >> 0u64) < 16) by (bit_vector);
+        assert(v < 0x1000 ==> (v >> 8u64) < 16) by (bit_vector);
+        assert(v < 0x10_0000 ==> (v >> 16u64) < 16) by (bit_vector);
+        assert(v < 0x1000_0000 ==> (v >> 24u64) < 16) by (bit_vector);
+        assert(v < 0x10_0000_0000 ==> (v >> 32u64) < 16) by (bit_vector);
+        assert(v < 0x1000_0000_0000 ==> (v >> 40u64) < 16) by (bit_vector);
+        assert(v < 0x10_0000_0000_0000 ==> (v >> 48u64) < 16) by (bit_vector);
+        assert(v < 0x1000_0000_0000_0000 ==> (v >> 56u64) < 16) by (bit_vector);
+        assert(x < 16);
+        assert(t & 0x0F == 0 && x < 16 ==> ((t | ((x as u8) & 0x0F)) % 16) as u64 == x && (t | ((x as u8) & 0x0F)) / 16 == t / 16) by (bit_vector);
+        assert(t == 0x30 || t == 0x40 || t == 0x50 || t == 0x60 || t == 0x70 || t == 0x80 || t == 0x90 || t == 0xA0);
+        assert(t == 0x30 || t == 0x40 || t == 0x50 || t == 0x60 || t == 0x70 || t == 0x80 || t == 0x90 || t == 0xA0 ==> t & 0x0F == 0) by (bit_vector);
+    }
+}
+
+// serves: C05
+/// C05 (integers): reading what write_uint wrote yields the same number, for every u64, whatever follows
+pub proof fn lemma_rt_uint(v: u64, tail: Seq<u8>)
+    ensures
+        dec_tv(enc_uint(v) + tail) == Tv::Num(uint_class(v), v, 1 + uint_class(v)),
+        skip(enc_uint(v) + tail, 1 + uint_class(v)) == tail,
+{
+    let k = uint_class(v);
+    let s = enc_uint(v) + tail;
+    lemma_uint_head(v);
+    lemma_be_fold(v, k, 0, (head_byte(uint_type(k), v, k) % 16) as u64);
+    assert(s.subrange(1, 1 + k) == be_bytes(v, k));
+    assert(be_bytes(v, k).subrange(0, k) == be_bytes(v, k));
+    assert(skip(s, 1 + k) == tail);
+}
+
+
+// serves: C05
+/// C05 (strings): reading what write_str wrote yields the same bytes, for every encodable string
+pub proof fn lemma_rt_str(b: Seq<u8>, tail: Seq<u8>)
+    requires
+        valid_utf8(b),
+        str_encodable(b),
+    ensures
+        str_token(enc_str(b) + tail) == Some((b, enc_str(b).len() as int)),
+        skip(enc_str(b) + tail, enc_str(b).len() as int) == tail,
+{
+    let s = enc_str(b) + tail;
+    let n = b.len() as u64;
+    if b.len() < 16 {
+        assert(n < 16 ==> (0xC0u8 | (((n >> 0u64) as u8) & 0x0F)) % 16 == n && 0xC0 <= (0xC0u8 | (((n >> 0u64) as u8) & 0x0F)) <= 0xCF) by (bit_vector);
+        assert(be_bytes(n, 0) =~= Seq::<u8>::empty());
+        assert(s.subrange(1, 1 + b.len() as int) == b);
+        assert(skip(s, 1 + b.len() as int) == tail);
+    } else {
+        assert(n < 4096 ==> (0xD0u8 | (((n >> 8u64) as u8) & 0x0F)) % 16 == n / 256 && 0xD0 <= (0xD0u8 | (((n >> 8u64) as u8) & 0x0F)) <= 0xDF
+            && ((n >> 0u64) as u8) == n % 256) by (bit_vector);
+        assert(be_bytes(n, 1) =~= seq![(n >> 0u64) as u8]);
+        assert(s[1] == (n >> 0u64) as u8);
+        assert(s.subrange(2, 2 + b.len() as int) == b);
+        assert(skip(s, 2 + b.len() as int) == tail);
+    }
+}
+
+// serves: C05
+pub proof fn lemma_rt_tags(tail: Seq<u8>)
+    ensures
+        dec_tv(enc_bool(true) + tail) == Tv::Tag(0x1Fu8),
+        dec_tv(enc_bool(false) + tail) == Tv::Tag(0x10u8),
+        dec_tv(enc_opt_str(None) + tail) == Tv::Tag(0x10u8),
+        (enc_bool(true) + tail)[0] == 0x1F,
+        (enc_bool(false) + tail)[0] == 0x10,
+        skip(enc_bool(true) + tail, 1) == tail,
+        skip(enc_bool(false) + tail, 1) == tail,
+        skip(enc_opt_str(None) + tail, 1) == tail,
+{
+}
+
+// serves: C18
+/// C18 (token level): an image cut off inside a token is seen as end-of-data, which every read_* turns into the error state
+pub proof fn lemma_cut_token_is_eof(s: Seq<u8>, j: int)
+    requires
+        0 <= j,
+        match dec_tv(s) {
+            Tv::Tag(b) => j < 1,
+            Tv::Num(k, v, n) => j < n,
+            Tv::Str(t, b, n) => j < n,
+            _ => false,
+        },
+    ensures
+        dec_tv(s.subrange(0, j)) == Tv::Eof,
+{
+    let p = s.subrange(0, j);
+    if j > 0 {
+        assert(p[0] == s[0]);
+        if j > 1 {
+            assert(p[1] == s[1]);
+        }
+    }
+}
